@@ -4,7 +4,7 @@ set_option linter.unusedSectionVars false
 namespace Context
 open Py
 
-variable {K V P : Type} [DecidableEq K]
+variable {K V P : Type} [DecidableEq K] [DecidableEq P]
 
 @[simp] theorem orElse_none_left (y : Option V) : orElse none y = y := rfl
 @[simp] theorem orElse_some_left (v : V) (y : Option V) : orElse (some v) y = some v := rfl
@@ -68,7 +68,7 @@ end Context
 namespace Context
 open Py
 
-variable {K V P : Type} [DecidableEq K]
+variable {K V P : Type} [DecidableEq K] [DecidableEq P]
 
 /-- what the chain of patchers leaves in `record["extra"]` -/
 def applyAll (papply : P → Assoc K V → Assoc K V) : List P → Assoc K V → Assoc K V
